@@ -1,16 +1,15 @@
-\* three static voters with snapshots (armed by the environment, taken after the next apply),
-\* snapshot transfer, crash and restart from a snapshot: exhaustive
+\* three static voters, one snapshot (take, compact, install), synchronous exchanges: exhaustive
 CONSTANTS
   Node = {a, b, c}
   InitVoters = {a, b, c}
   Value = {x, y}
   Nil = Nil
   MaxTerm = 2
-  MaxLog = 5
-  MaxTimer = 4
+  MaxLog = 4
+  MaxTimer = 3
   MaxAE = 3
-  MaxClient = 2
-  MaxCrash = 1
+  MaxClient = 1
+  MaxCrash = 0
   MaxHalf = 0
   MaxCfg = 0
   MaxRead = 0
@@ -19,8 +18,9 @@ CONSTANTS
   AsyncKinds = {}
   MaxNet = 0
   W = {}
+  MayTimeout = {a, b, c}
   Gen = FALSE
 SPECIFICATION Spec
 SYMMETRY Symm
-INVARIANTS ElectionSafety LogMatching NoViolation TypeOK
+INVARIANTS ElectionSafety LogMatching NoViolation CommittedDurable TypeOK
 CHECK_DEADLOCK FALSE
